@@ -1078,6 +1078,12 @@ func (r *resolver) expandAugment(y *Augment, parent Meta) error {
 		}
 		if targetIsChoice {
 			if cs, isCase := d.(*ChoiceCase); isCase {
+				if on, ferr := checkFeature(cs); ferr != nil {
+					return ferr
+				} else if !on {
+					r.noteDisabled(target, cs.Ident())
+					continue
+				}
 				if err = targetChoice.addCase(cs); err != nil {
 					return err
 				}
